@@ -43,6 +43,8 @@ var rsaSig KeyPair    // keyUsage digitalSignature only (a key its owner meant f
 var rsaSKI KeyPair    // a certificate carrying a SubjectKeyIdentifier, as openssl-made ones do
 var rsaSKIMal KeyPair // Mallory's key under a self-signed certificate copying rsaSKI's subject and SubjectKeyIdentifier
 var rsa4096 KeyPair   // a 4096-bit key
+var rsa1Sig KeyPair   // rsa1's key under a certificate with keyUsage digitalSignature (+contentCommitment) only
+var rsa1CA KeyPair    // rsa1's key under a self-signed CA:TRUE certificate
 
 func fixturesDir() string {
 	if d := os.Getenv("VERIF_FIXTURES"); d != "" {
@@ -85,6 +87,7 @@ func loadFixtures() {
 	}
 	rsaOld = loadKey("rsaold")
 	rsaSig, rsaSKI, rsaSKIMal, rsa4096 = loadKey("rsasig"), loadKey("rsaski"), loadKey("rsaskimal"), loadKey("rsa4096")
+	rsa1Sig, rsa1CA = loadKey("rsa1sig"), loadKey("rsa1ca")
 }
 
 // passVerifier is an application-supplied saml.SignatureVerifier that does what the library would do itself.
